@@ -50,7 +50,8 @@ pub fn generate(g: &mut Gen) {
         g.push(format!("t.divs {} {}", qt(&a), hx(sc)), Tol::Exact, &format!("divscalar/{}", rank), nt);
         for k in 1..=g.n(2, 5) {
             let others: Vec<String> = (0..k).map(|_| { let o = g.tensor_of(s, false); qt(&o) }).collect();
-            g.push(format!("t.mean {} {} {}", qt(&a), k, others.join(" ")), Tol::Exact, &format!("mean/{}/k{}", rank, k), nt);
+            // one addition and one division (k = 1) have a unique IEEE result; a sum of three or more terms may be associated in any order
+            g.push(format!("t.mean {} {} {}", qt(&a), k, others.join(" ")), if k <= 1 { Tol::Exact } else { Tol::Tight }, &format!("mean/{}/k{}", rank, k), nt);
         }
         g.push(format!("t.clamp {} {} {}", qt(&a), hx(-0.5), hx(0.75)), Tol::Exact, &format!("clamp/{}", rank), nt);
         // mismatching shapes: must be refused
@@ -94,7 +95,8 @@ pub fn generate(g: &mut Gen) {
             let m = g.tensor_of(&Shape::Double(r, c), false);
             let x = g.tensor_of(&Shape::Single(c), false);
             let y = g.tensor_of(&Shape::Single(r), false);
-            g.push(format!("t.dot {} {}", qt(&m), qt(&x)), Tol::Exact, "dot", r * c >= 2);
+            // the matrix-vector product is a sum: any summation order is a correct implementation
+            g.push(format!("t.dot {} {}", qt(&m), qt(&x)), Tol::Tight, "dot", r * c >= 2);
             g.push(format!("t.transpose {}", qt(&m)), Tol::Exact, "transpose", r * c >= 2);
             g.push(format!("t.product {} {}", qt(&y), qt(&x)), Tol::Exact, "product", r * c >= 2);
         }
@@ -132,7 +134,7 @@ pub fn generate(g: &mut Gen) {
             5 => {
                 let k = g.rng().range(1, 5);
                 let others: Vec<String> = (0..k).map(|_| { let o = g.tensor_of(&s, true); qt(&o) }).collect();
-                g.push(format!("t.mean {} {} {}", qt(&a), k, others.join(" ")), Tol::Exact, &label, true)
+                g.push(format!("t.mean {} {} {}", qt(&a), k, others.join(" ")), if k <= 1 { Tol::Exact } else { Tol::Tight }, &label, true)
             }
             _ => {
                 let (x, y) = (g.val(true), g.val(true));
